@@ -82,6 +82,17 @@ PROPS = {
              "indices {MIN,-2,-1,0..depth+2,MAX} x one-hot BOOLEAN families x bystander variants; distinct = (name, depth, index, hot).",
         floors={"79 instructions": lambda a, t: set_n(a, "instructions") >= 79},
     ),
+    "C06": dict(
+        jobs=lambda tier: both(6, None, stall_s=60),
+        eval_keys=["steps"],
+        rule="(1) 18 control/index combinators and list/literal/name steps on random EXEC/CODE/INDEX contents, each step compared with the "
+             "documented unfolding rule; (2) loop programs ( n INDEX.DEFINE EXEC.LOOP B ), ( CODE.QUOTE B n INDEX.DEFINE CODE.LOOP ), "
+             "( INT[v] INTVECTOR.LOOP B ) for every n in -1..6 (12 thorough) and generated bodies with probes, conditionals and loops nested "
+             "to depth 3; a harness-registered VERIF.PROBE logs (INDEX stack, top INTEGER) and the trace is compared with the documented "
+             "iteration sequence, plus: nothing left on INDEX/INTVECTOR/CODE/EXEC; (3) random programs over the control alphabet with every "
+             "step judged. distinct = (combinator, stack-depth class, fired) / (loop nesting shape, trace length).",
+        floors={"18 combinators": lambda a, t: set_n(a, "instructions") >= 18, "probe events": lambda a, t: a.counts.get("probe_events_checked", 0) >= 5000},
+    ),
     "C08": dict(
         jobs=lambda tier: both(6),
         eval_keys=["steps", "api_relations", "relations"],
